@@ -214,22 +214,36 @@ func (s *String) Interface() interface{} {
 }
 
 func (s *String) Compare(other Object) (int, error) {
-	otherStr, ok := other.(*String)
-	if !ok {
+	var otherValue string
+	switch other := other.(type) {
+	case *String:
+		otherValue = other.value
+	case *ByteSlice:
+		// byte_slice compares with string, so string compares with byte_slice
+		otherValue = string(other.value)
+	default:
 		return 0, errz.TypeErrorf("type error: unable to compare string and %s", other.Type())
 	}
-	if s.value == otherStr.value {
+	if s.value == otherValue {
 		return 0, nil
 	}
-	if s.value > otherStr.value {
+	if s.value > otherValue {
 		return 1, nil
 	}
 	return -1, nil
 }
 
 func (s *String) Equals(other Object) Object {
-	if other.Type() == STRING && s.value == other.(*String).value {
-		return True
+	switch other := other.(type) {
+	case *String:
+		if s.value == other.value {
+			return True
+		}
+	case *ByteSlice:
+		// byte_slice == string is true for equal bytes, so string == byte_slice is too
+		if s.value == string(other.value) {
+			return True
+		}
 	}
 	return False
 }
